@@ -213,7 +213,7 @@ def main(ck: Check):
     thorough = ck.tier == "thorough"
     lean = ck.locked()
     lean.__enter__()
-    ok_gen = ck.regenerate(["starforce", "core", "gearparts"])  # gearparts: C17_Parts
+    ok_gen = ck.regenerate(["starforce", "core", "gearparts", "effects"])  # gearparts: C17_Parts; effects: C17_Effects
     proved = ok_gen and ck.prove("Simaple.Props.C17")
     if thorough and proved:
         ck.leanchecker(["Simaple.Props.C17"])
@@ -538,6 +538,7 @@ def main(ck: Check):
 
     # ------------------------------------------------------------ Lean side, one driver call
     res = ck.driver(reqs, timeout=900)
+    effect_rows = ck.effect_entries(17, "Simaple.Props.C17.build_wellFormed")
     lean.__exit__(None, None, None)
     disagreements = 0
     per_point: dict[str, int] = {}
@@ -593,6 +594,7 @@ def main(ck: Check):
                                       "detail": detail, "model": r if detail is None else None,
                                       "implementation": py if detail is None and not isinstance(py, dict) else None})
 
+    ck.coverage["build_methods_checked_by_the_effect_model"] = effect_rows
     ck.coverage.update({
         "evaluations": sweep.calls + 2 * n_single + bp_checked,
         "distinct_nontrivial": len(sweep.distinct) + bp_built,
